@@ -779,11 +779,14 @@ impl Database {
     ) {
         // `value` is the copy the snapshot took before writing. The key may have been written or
         // removed since (clients are not blocked while a snapshot runs): keep what is in memory
-        // then, still pending for the next snapshot, and only remember where the record is on disk
+        // then, still pending for the next snapshot, and only remember where the record is on disk.
+        // The version alone does not tell: a key removed before it was ever stored starts again at
+        // version 0 when it is written again, the id of the operation that wrote it does
         let mut db = self.map.write().unwrap();
         let stored = match db.get(key) {
             Some(current)
                 if current.version != value.version
+                    || current.opp_id != value.opp_id
                     || (current.state == ValueStatus::Deleted
                         && value.state != ValueStatus::Deleted) =>
             {
